@@ -795,8 +795,9 @@ func TestC23(t *testing.T) {
 		} else if res.inconc == "" {
 			if res.oneFits {
 				// the reply whose size the statement bounds never arrived although a one-key reply would fit
+				// (the listing operation then counts this node as missing instead of showing a prefix of its keys)
 				r.Count("trunc_no_reply_although_one_key_fits", 1)
-				r.Inconclusive(fmt.Sprintf("trunc case %d: keys=%d limit=%d: no list-keys reply although a reply with one key fits the limit (nothing to measure)", ci, c.N, c.Limit))
+				r.Violation("trunc-no-reply-although-one-key-fits", ci, fmt.Sprintf("keys=%d limit=%d: the node sent no list-keys reply at all although a reply with one key fits the limit: instead of a prefix of its keys and a 'showing first n of %d' note the asker gets nothing", c.N, c.Limit, c.N), map[string]any{"keys": c.N, "limit": c.Limit, "key_sizes": c.Sizes})
 			} else {
 				r.Count("trunc_no_reply_limit_below_one_key", 1)
 			}
